@@ -410,13 +410,39 @@ def rule_widen1(ctx: Ctx) -> RuleResult:
                 rr.ob(f.relpath, f.qualname, norm(n), "only Unknown, Null and int-next-to-float are ever removed from the "
                       "candidates", VIOLATED, f"`{what}` is removed: an observed type is lost", n.lineno)
     # WIDEN-2: the category lists filled by the routing loop reach their consumers unfiltered
-    route = next((n for n in walk_no_nested(f.node) if isinstance(n, ast.For) and norm(n.iter).endswith(".types")), None)
+    def _is_members(e, fnode):
+        t_ = norm(e)
+        if t_.endswith(".types") or (isinstance(e, ast.Call) and norm(e.func) in ("list", "tuple", "iter") and e.args
+                                      and norm(e.args[0]).endswith(".types")):
+            return True
+        if isinstance(e, ast.Name):
+            ds = ctx.defs_reaching(f, e, e.id) or []
+            return bool(ds) and all(isinstance(d, (ast.Assign, ast.AnnAssign)) and d.value is not None and
+                                    _is_members(d.value, d) for d in ds if d is not f.node) and all(d is not f.node for d in ds)
+        return False
+    route = next((n for n in walk_no_nested(f.node) if isinstance(n, ast.For) and _is_members(n.iter, n)), None)
     if route is None:
         raise AnalysisError("WIDEN-2: the routing loop over the union members was not found")
     cats = set()
     for x in ast.walk(route):
         if isinstance(x, ast.Call) and isinstance(x.func, ast.Attribute) and x.func.attr == "append" and isinstance(x.func.value, ast.Name):
             cats.add(x.func.value.id)
+    # removals apply to the routed candidates (Optional members are unwrapped by the routing loop; a removal from the
+    # raw member list does not see the int inside Optional[int])
+    for n in walk_no_nested(f.node):
+        if isinstance(n, ast.Call) and isinstance(n.func, ast.Attribute) and n.func.attr in ("remove", "discard", "pop") and n.args \
+                and isinstance(n.func.value, ast.Name):
+            lstn = n.func.value.id
+            ds = ctx.defs_reaching(f, n, lstn) or []
+            derived_ok = lstn in cats or all(isinstance(d, (ast.Assign, ast.AnnAssign)) and d.value is not None and
+                                             any(isinstance(c_, ast.Name) and c_.id in cats for c_ in ast.walk(d.value))
+                                             for d in ds) and bool(ds)
+            rr.instances += 1
+            rr.ob(f.relpath, f.qualname, norm(n), "candidates are dropped from the routed lists only (after Optional members "
+                  "were unwrapped)", DISCHARGED if derived_ok else VIOLATED,
+                  "routed list" if derived_ok else
+                  f"`{lstn}` is not one of the lists the routing loop fills ({sorted(cats)}): the rule is applied before Optional "
+                  f"members are unwrapped, so whether it takes effect depends on which sample came first", n.lineno)
     # every member goes to exactly one category on every path
     from ..paths import enumerate_paths as _ep
     for pth in _ep(route.body):
@@ -854,4 +880,147 @@ def rule_samples1(ctx: Ctx) -> RuleResult:
     okk = not tamper and not loops
     rr.ob(gen.relpath, gen.qualname, f"*{vararg}", "the sample tuple itself is used as given", DISCHARGED if okk else VIOLATED,
           "not rebuilt" if okk else f"`{norm((tamper + loops)[0])[:60]}` rebuilds or filters the samples", gen.node.lineno)
+    return rr
+
+
+def rule_elem1(ctx: Ctx) -> RuleResult:
+    """Every element of a list and every value of a mapping has its type detected: none skipped, none 'de-duplicated'."""
+    rr = RuleResult("ELEM-1", "each list element and each mapping value contributes its type", floor=2)
+    det = ctx.prog.func(GEN, "MetadataGenerator._detect_type")
+    vparam = det.params[1] if det.params and det.params[0] == "self" else det.params[0]
+    mod = det.module
+    ok_iters = (vparam, f"{vparam}.values()", f"list({vparam})", f"tuple({vparam})", f"list({vparam}.values())",
+                f"tuple({vparam}.values())", f"iter({vparam})")
+    st = ("the element type T of List[T] / Dict[str, T] is built from the type of every element: skipping one (a filter, a "
+          "'seen' set - Python equality makes 1 == 1.0 == True) leaves its type out of T")
+    n_sites = 0
+    for c in walk_no_nested(det.node):
+        if not (isinstance(c, ast.Call) and det in [t for t in ctx.cg.resolve_call(det, mod, c) if isinstance(t, FuncInfo)]):
+            continue
+        if not c.args:
+            continue
+        # climb to the iteration construct that feeds this call
+        cur, par = c, mod.parents.get(c)
+        site = None
+        while par is not None and par is not det.node:
+            if isinstance(par, (ast.ListComp, ast.GeneratorExp, ast.SetComp)) and par.elt is cur:
+                site = par
+                break
+            if isinstance(par, ast.For):
+                site = par
+                break
+            cur, par = par, mod.parents.get(par)
+        if site is None:
+            continue
+        n_sites += 1
+        rr.instances += 1
+        if isinstance(site, ast.For):
+            it, tgt, ifs = site.iter, site.target, []
+        else:
+            g0 = site.generators[0]
+            it, tgt, ifs = g0.iter, g0.target, g0.ifs if len(site.generators) == 1 else ["nested"]
+        problems = []
+        it_txt = norm(it)
+        if isinstance(it, ast.Name) and it.id != vparam:
+            ds = ctx.defs_reaching(det, it, it.id) or []
+            if len(ds) == 1 and isinstance(ds[0], (ast.Assign, ast.AnnAssign)) and ds[0].value is not None:
+                it_txt = norm(ds[0].value)
+        if it_txt not in ok_iters:
+            problems.append(f"iterates `{it_txt[:40]}`, not the elements as given")
+        if ifs:
+            problems.append("the comprehension has a filter")
+        if isinstance(site, ast.SetComp):
+            problems.append("a set comprehension merges equal types before the union sees them")
+        if norm(c.args[0]) != norm(tgt):
+            problems.append(f"`{norm(c.args[0])[:30]}` is passed instead of the element")
+        if isinstance(site, ast.For):
+            # the call must run on every iteration
+            top = c
+            while mod.parents.get(top) is not site:
+                top = mod.parents.get(top)
+            idx = site.body.index(top) if top in site.body else None
+            if idx is None:
+                problems.append("the call is not in the loop body proper")
+            else:
+                if not isinstance(top, (ast.Expr, ast.Assign, ast.AnnAssign, ast.AugAssign)):
+                    problems.append(f"the call sits under `{type(top).__name__.lower()}`: not every element reaches it")
+                for prev in site.body[:idx]:
+                    if any(isinstance(x, (ast.Continue, ast.Break, ast.Return)) for x in ast.walk(prev)):
+                        problems.append(f"`{norm(prev)[:50]}` can skip the element before its type is detected")
+                        break
+        rr.ob(det.relpath, det.qualname, norm(site)[:90] if not isinstance(site, ast.For) else f"for {norm(tgt)} in {norm(it)}: ...",
+              st, VIOLATED if problems else DISCHARGED, "; ".join(problems) if problems else "every element, unfiltered", c.lineno)
+    if n_sites < 2:
+        raise AnalysisError(f"ELEM-1: only {n_sites} element-wise detections found in _detect_type (list and mapping expected)")
+    return rr
+
+
+def rule_nf8(ctx: Ctx) -> RuleResult:
+    """optimize_type never hands back a component of its argument that it has not simplified."""
+    rr = RuleResult("NF-8", "a simplification result contains no unsimplified part of the input", floor=4)
+    prog = ctx.prog
+    simp = {prog.func(GEN, "MetadataGenerator.optimize_type"), prog.func(GEN, "MetadataGenerator._optimize_union")}
+    st = ("every component of a container type passes through optimize_type before it becomes part of the result: a member "
+          "handed back as found (a shortcut for the one-member union, say) can itself be a one-member union, a nested "
+          "Optional, or int next to float")
+    for f in sorted(simp, key=lambda x: x.qualname):
+        mod = f.module
+        p = [a for a in f.params if a != "self"][0]
+        comp_attrs = ("types", "type")
+        for r in walk_no_nested(f.node):
+            if not (isinstance(r, ast.Return) and r.value is not None):
+                continue
+            rr.instances += 1
+            raw = None
+            for x in ast.walk(r.value):
+                if isinstance(x, ast.Attribute) and x.attr in comp_attrs and isinstance(x.value, ast.Name) and x.value.id == p:
+                    # is it (transitively) an argument of a simplifier call inside the returned expression?
+                    cur, par = x, mod.parents.get(x)
+                    simplified = False
+                    while par is not None and cur is not r.value:
+                        if isinstance(par, ast.Call) and cur is not par.func and any(
+                                isinstance(t, FuncInfo) and t in simp for t in ctx.cg.resolve_call(f, mod, par)):
+                            simplified = True
+                            break
+                        cur, par = par, mod.parents.get(par)
+                    if not simplified:
+                        raw = x
+            if raw is not None:
+                rr.ob(f.relpath, f.qualname, norm(r)[:80], st, VIOLATED,
+                      f"`{norm(raw)}` of the argument is returned as found, without going through optimize_type", r.lineno)
+            else:
+                rr.ob(f.relpath, f.qualname, norm(r)[:80], st, DISCHARGED,
+                      "no raw component of the argument in the returned expression", r.lineno)
+    return rr
+
+
+def rule_memo1(ctx: Ctx) -> RuleResult:
+    """INFPURE-1: type inference keeps no memory between values: MetadataGenerator's methods do not write to the generator."""
+    rr = RuleResult("INFPURE-1", "the type detected for a value does not depend on the values seen before it", floor=4)
+    prog = ctx.prog
+    gen = prog.cls(GEN, "MetadataGenerator")
+    st = ("detection and merging are functions of their arguments and the options fixed by the constructor: a memo or "
+          "counter kept on the generator makes the result depend on which sample came first")
+    n = 0
+    for name, ms in sorted(gen.methods.items()):
+        for f in ms:
+            if name == "__init__":
+                continue
+            n += 1
+            rr.instances += 1
+            bad = [w for w in ctx.effects.events(f) if (w.root == "self" or w.root.startswith("classattr:") or w.root.startswith("global:"))
+                   and w.kind in ("attr", "item", "mutcall", "rebind")]
+            # nested helpers of the method
+            for g in prog.all_funcs():
+                if g.parent is f:
+                    bad += [w for w in ctx.effects.events(g) if w.root in ("self",) or w.root.startswith("closure:")]
+            if bad:
+                w = bad[0]
+                rr.ob(f.relpath, f.qualname, w.path[:80], st, VIOLATED,
+                      f"`{w.path[:50]}` is written while values are processed: later values are typed with what earlier ones "
+                      f"left behind", w.line)
+            else:
+                rr.ob(f.relpath, f.qualname, name, st, DISCHARGED, "writes nothing that outlives the call", f.node.lineno)
+    if n < 4:
+        raise AnalysisError(f"INFPURE-1: only {n} methods of MetadataGenerator found")
     return rr
